@@ -12,6 +12,7 @@ import (
 	"expvar"
 	"fmt"
 	"html/template"
+	"io"
 	"log"
 	"net/http"
 	"net/netip"
@@ -357,7 +358,14 @@ func serveJSON[REQ any, RESP any](s *Server, w http.ResponseWriter, r *http.Requ
 	}
 
 	var req REQ
-	if err := json.NewDecoder(r.Body).Decode(&req); err != nil {
+	dec := json.NewDecoder(r.Body)
+	if err := dec.Decode(&req); err != nil {
+		s.countCallBadRequest.Add(apiMethod, 1)
+		http.Error(w, "bad request", http.StatusBadRequest)
+		return
+	} else if _, err := dec.Token(); err != io.EOF {
+		// The body must be one JSON value and nothing else: Decode stops
+		// after the first value and would let trailing bytes through.
 		s.countCallBadRequest.Add(apiMethod, 1)
 		http.Error(w, "bad request", http.StatusBadRequest)
 		return
